@@ -231,6 +231,7 @@ func (p *pkg) addDriver() (map[int]bool, error) {
 
 type typeSet struct {
 	comparable, noncomparable, results []*ga.Type
+	inline                             []*ga.Type // round 5: subset of noncomparable (ga.InlineElemShapesR5C18)
 	byName                             map[string]*ga.Type
 }
 
@@ -256,6 +257,13 @@ func candidates(cat *ga.Catalogue) *typeSet {
 	req := ga.Named(49, "Req", 0, St(id, Sl(B("int"))))
 	ts.comparable = append(ts.comparable, id, idp, Ar(2, id))
 	ts.noncomparable = append(ts.noncomparable, req, P(id), Sl(idp), St(idp, Sl(B("string"))))
+	// hardening round 5: a component that derived Equal compares with an inline expression ([]byte, a pointer
+	// to an unnamed type) in ELEMENT position (slice / array element, map value, referent, field of an
+	// unnamed struct), where the generator negates that expression (seeded change C18-m13)
+	ts.inline = ga.InlineElemShapesR5C18(cat)
+	ts.noncomparable = append(ts.noncomparable, ts.inline...)
+	// (two corpus lines of round 3 named these and were skipped with a note: not in the table)
+	ts.noncomparable = append(ts.noncomparable, Sl(B("complex128")), P(B("complex128")))
 	ts.results = []*ga.Type{B("int"), B("string"), B("float64"), B("bool"), Sl(B("int")), P(B("int")), cat.S0, M(B("string"), B("int")), cat.NInt, Ar(2, B("string"))}
 	for _, l := range [][]*ga.Type{ts.comparable, ts.noncomparable, ts.results} {
 		for _, t := range l {
@@ -302,6 +310,26 @@ func cellSig(r *hx.Rand, ts *typeSet, form string, nres int) *sig {
 
 var cellForms = []string{"zero", "map1", "mapN", "bucket1", "bucketN-mixed", "bucketN"}
 
+// splitTop splits at the `;` that are not inside braces (struct{F0 T0;F1 T1} is one type).
+func splitTop(txt string) []string {
+	var out []string
+	depth, start := 0, 0
+	for i, c := range txt {
+		switch c {
+		case '{':
+			depth++
+		case '}':
+			depth--
+		case ';':
+			if depth == 0 {
+				out = append(out, txt[start:i])
+				start = i + 1
+			}
+		}
+	}
+	return append(out, txt[start:])
+}
+
 // corpusSigs reads corpus/C18/*.sig: one signature per line, `T0;T1 -> R0;R1` with the Go
 // spelling (spaces removed) of candidate types; `#` comments.
 func corpusSigs(dir string, ts *typeSet, meta *hx.Meta) []*sig {
@@ -327,7 +355,7 @@ func corpusSigs(dir string, ts *typeSet, meta *hx.Meta) []*sig {
 			okLine := true
 			parse := func(txt string) []*ga.Type {
 				var ts2 []*ga.Type
-				for _, n := range strings.Split(txt, ";") {
+				for _, n := range splitTop(txt) {
 					n = strings.ReplaceAll(strings.TrimSpace(n), " ", "")
 					if n == "" {
 						continue
@@ -521,14 +549,53 @@ func tupleSexp(t []*ga.Val) string {
 	return b.String()
 }
 
-func genHistory(r *hx.Rand, g *ga.Gen, pools [][]*ga.Val, maxLen int, meta *hx.Meta) string {
+// histSexp prints a history.
+func histSexp(hist [][]*ga.Val) string {
+	var b strings.Builder
+	b.WriteByte('(')
+	for i, t := range hist {
+		if i > 0 {
+			b.WriteByte(' ')
+		}
+		b.WriteString(tupleSexp(t))
+	}
+	b.WriteByte(')')
+	return b.String()
+}
+
+// sweepHistory (round 5) is the one history of a signature that does not depend on luck: the leading pool
+// values of every parameter in pool order (the zero value, nil, empty, one element, ... — tuple i takes entry
+// i of every pool, wrapping around), so that nil AND empty, +0 AND -0, ... of a parameter always meet in one
+// call sequence; then Equal variants of the first entries.
+func sweepHistory(r *hx.Rand, g *ga.Gen, pools [][]*ga.Val, maxLen int) string {
+	n := 0
+	for _, p := range pools {
+		n = max(n, len(p))
+	}
+	n = min(n, maxLen)
+	var hist [][]*ga.Val
+	for i := 0; i < n; i++ {
+		t := make([]*ga.Val, len(pools))
+		for j, p := range pools {
+			t[j] = p[i%len(p)].Clone(g.Fresh)
+		}
+		hist = append(hist, t)
+	}
+	for i := 0; i < min(n, 3); i++ {
+		hist = append(hist, equalVariant(r, g, hist[i]))
+	}
+	return histSexp(hist)
+}
+
+// rich (round 5): per parameter, values whose containers are non-nil all the way down (may be empty lists).
+func genHistory(r *hx.Rand, g *ga.Gen, s *sig, pools, rich [][]*ga.Val, maxLen int, meta *hx.Meta) string {
 	n := 1 + r.Intn(maxLen)
 	if r.Intn(20) == 0 {
 		n = 0
 	}
 	var hist [][]*ga.Val
 	for i := 0; i < n; i++ {
-		x := r.Intn(10)
+		x := r.Intn(11)
 		switch {
 		case len(hist) > 0 && x < 3: // the very same argument values again (same pointers)
 			hist = append(hist, hist[r.Intn(len(hist))])
@@ -554,24 +621,38 @@ func genHistory(r *hx.Rand, g *ga.Gen, pools [][]*ga.Val, maxLen int, meta *hx.M
 			t[j] = hx.Pick(r, pools[j]).Clone(g.Fresh)
 			hist = append(hist, t)
 			meta.CountSafe("histories/one-component-replaced")
+		case len(pools) > 0 && x == 10:
+			// round 5: two arguments with a REAL hash collision (one bucket of the emitted table) that are
+			// not Equal: around an earlier tuple or a new one; the later steps repeat them and their
+			// Equal variants
+			var base []*ga.Val
+			if len(hist) > 0 && r.Bool() {
+				base = hist[r.Intn(len(hist))]
+			} else {
+				base = make([]*ga.Val, len(pools))
+				for j, p := range pools {
+					base[j] = hx.Pick(r, p).Clone(g.Fresh)
+				}
+			}
+			if a, b, ok := collidingTuples(r, g, s, base); ok {
+				hist = append(hist, a, b)
+				i++
+				meta.CountSafe("histories/real-hash-collision-pair")
+			} else {
+				hist = append(hist, base)
+			}
 		default:
 			t := make([]*ga.Val, len(pools))
 			for j, p := range pools {
+				if len(rich[j]) > 0 && r.Intn(4) == 0 {
+					p = rich[j]
+				}
 				t[j] = hx.Pick(r, p).Clone(g.Fresh)
 			}
 			hist = append(hist, t)
 		}
 	}
-	var b strings.Builder
-	b.WriteByte('(')
-	for i, t := range hist {
-		if i > 0 {
-			b.WriteByte(' ')
-		}
-		b.WriteString(tupleSexp(t))
-	}
-	b.WriteByte(')')
-	return b.String()
+	return histSexp(hist)
 }
 
 // ---------- re-entrant histories ----------
@@ -595,7 +676,49 @@ func collidingValues(g *ga.Gen, t *ga.Type) []*ga.Val {
 	case "ID": // struct{F0, F1 int}: (17*31+1)*31+31 == (17*31+2)*31+0
 		return []*ga.Val{{K: "st", Elems: []*ga.Val{num("1"), num("31")}}, {K: "st", Elems: []*ga.Val{num("2"), num("0")}}}
 	}
-	return nil
+	// round 5: any type for which a colliding pair can be built compositionally ("Aa"/"BB", {1,0}/{0,31},
+	// {0:31}/{1:0}, adjacent fields (1,0)/(0,31), lifted through slices, arrays, maps, pointers, structs)
+	return g.CollidingPairR5C18(t)
+}
+
+// collidingTuples (round 5) returns two argument tuples that are not Equal and have the same derived hash
+// of the key (the single argument, or input{param0, ...}: h = 31*h + hash(param_i)): one component replaced
+// by a colliding pair, or two ADJACENT components (1, 0) / (0, 31); the other components Equal (the very
+// same values or fresh copies).  ok = false when the parameter types allow neither.
+func collidingTuples(r *hx.Rand, g *ga.Gen, s *sig, base []*ga.Val) (a, b []*ga.Val, ok bool) {
+	a, b = make([]*ga.Val, len(base)), make([]*ga.Val, len(base))
+	fresh := r.Bool()
+	for k := range base {
+		a[k], b[k] = base[k], base[k]
+		if fresh {
+			b[k] = base[k].Clone(g.Fresh)
+		}
+	}
+	var cand [][2]int // {parameter, 0 = a pair inside it, 1 = it and the next one}
+	for j, t := range s.Params {
+		if collidingValues(g, t) != nil {
+			cand = append(cand, [2]int{j, 0})
+		}
+		if j+1 < len(s.Params) && ga.SmallHashValR5C18(t, 1) != nil && ga.SmallHashValR5C18(s.Params[j+1], 31) != nil {
+			cand = append(cand, [2]int{j, 1})
+		}
+	}
+	if len(cand) == 0 {
+		return nil, nil, false
+	}
+	c := hx.Pick(r, cand)
+	j := c[0]
+	if c[1] == 0 {
+		vs := collidingValues(g, s.Params[j])
+		a[j], b[j] = vs[0], vs[1]
+	} else {
+		a[j], a[j+1] = ga.SmallHashValR5C18(s.Params[j], 1), ga.SmallHashValR5C18(s.Params[j+1], 0)
+		b[j], b[j+1] = ga.SmallHashValR5C18(s.Params[j], 0), ga.SmallHashValR5C18(s.Params[j+1], 31)
+	}
+	if r.Bool() {
+		a, b = b, a
+	}
+	return a, b, true
 }
 
 func idxList(l []int) string {
@@ -815,6 +938,43 @@ func Run(cfg hx.Config) (*hx.Meta, error) {
 	for k := 0; k < extra; k++ {
 		sigs = append(sigs, cellSig(r, ts, hx.Pick(r, cellForms), r.Intn(4)))
 	}
+	// round 5: signatures over the inline-element shapes (quick: two drawn by the seed beside the corpus
+	// lines; thorough: every shape once alone and once among other parameters)
+	usable := map[*ga.Type]bool{}
+	for _, t := range ts.noncomparable {
+		usable[t] = true
+	}
+	var inl []*ga.Type
+	for _, t := range ts.inline {
+		if usable[t] {
+			inl = append(inl, t)
+		}
+	}
+	if len(inl) > 0 {
+		r5 := r.Fork(0x5c18)
+		mk := func(t *ga.Type, alone bool) *sig {
+			s := &sig{Params: []*ga.Type{t}}
+			if !alone {
+				s.Params = []*ga.Type{hx.Pick(r5, ts.comparable), t}
+				if r5.Bool() {
+					s.Params = []*ga.Type{t, hx.Pick(r5, ts.comparable)}
+				}
+			}
+			for i := r5.Intn(3); i >= 0; i-- {
+				s.Results = append(s.Results, hx.Pick(r5, ts.results))
+			}
+			return s
+		}
+		if cfg.Tier == "thorough" {
+			for _, t := range inl {
+				sigs = append(sigs, mk(t, true), mk(t, false))
+			}
+		} else {
+			for k := 0; k < 2; k++ {
+				sigs = append(sigs, mk(hx.Pick(r5, inl), k%2 == 0))
+			}
+		}
+	}
 	seen := map[string]bool{}
 	var uniq []*sig
 	for _, s := range sigs {
@@ -909,23 +1069,39 @@ func Run(cfg hx.Config) (*hx.Meta, error) {
 		var cases strings.Builder
 		for i, s := range p.Sigs {
 			pools := make([][]*ga.Val, len(s.Params))
+			rich := make([][]*ga.Val, len(s.Params))
 			for j, t := range s.Params {
 				pools[j] = g2.Pool(t, map[int]*ga.Type{}, 3)
+				if !t.Comparable() {
+					// round 5: containers that are non-nil all the way down, same shape and length,
+					// differing in one element deep inside (ga's pools lead with nil and empty); kept
+					// beside the pool so that nil / empty / zero stay as frequent as they were
+					rich[j] = g2.NonNilPoolR5C18(t, 8)
+				}
 			}
 			bucket := strings.HasPrefix(s.Form(), "bucket")
 			if bucket && !coll[p.Idx[i]] {
 				meta.CountSafe("collision-copy-not-derivable")
 				metaNote(meta, "no hash call found in the emitted deriveMem("+s.FuncType()+"): collision variant skipped")
 			}
-			for k := 0; k < nhist; k++ {
+			for k := -1; k < nhist; k++ {
 				fkind := "canon"
-				switch x := rb.Intn(10); {
-				case x < 2:
-					fkind = "panicky"
-				case x < 4:
-					fkind = "raw"
+				var h string
+				if k < 0 {
+					if len(pools) == 0 {
+						continue
+					}
+					h = sweepHistory(rb, g2, pools, maxLen)
+					meta.CountSafe("histories/pool-sweep")
+				} else {
+					switch x := rb.Intn(10); {
+					case x < 2:
+						fkind = "panicky"
+					case x < 4:
+						fkind = "raw"
+					}
+					h = genHistory(rb, g2, s, pools, rich, maxLen, meta)
 				}
-				h := genHistory(rb, g2, pools, maxLen, meta)
 				fmt.Fprintf(&cases, "memhist %d %s derived %s\n", p.Idx[i], fkind, h)
 				meta.CountSafe("histories/" + s.Form() + "/derived")
 				if bucket && coll[p.Idx[i]] {
